@@ -5,6 +5,7 @@ mod alloc;
 mod conc;
 mod concgen;
 mod crash;
+mod fault;
 mod gate;
 mod keys;
 mod out;
@@ -72,6 +73,12 @@ fn main() {
         "c19" | "c11" | "c08" => {
             let mut s = sess::Sess::new(&work);
             if slice == "c19" { gate::c19(&mut s, &mut rng, n); } else if slice == "c11" { gate::c11(&mut s, &mut rng, n); } else { gate::c08(&mut s, &mut rng, n); }
+            s.finish();
+            out = std::mem::take(&mut s.out);
+        }
+        "c14" => {
+            let mut s = sess::Sess::new(&work);
+            fault::c14(&mut s, &mut rng, n);
             s.finish();
             out = std::mem::take(&mut s.out);
         }
